@@ -9,7 +9,7 @@ from fractions import Fraction
 import common
 import impl_next
 import rulesets
-from props.C04 import collect
+from props.C04 import collect, independent_product
 
 ID = "C16"
 TRUSTED = ["independence and uniformity of Python's random.random()/choice() (the draws are the model's inputs)",
@@ -87,6 +87,9 @@ def exact_interval_ok(ws, i, u, tol=1e-12):
     return lo - Fraction(tol) <= fu <= hi + Fraction(tol)
 
 
+EXPANDING = {2: "\u00dfa", 3: "fu\u00df", 4: "\u01f0azz", 5: "ma\u00dfen"}     # 'ß'.upper() == 'SS', 'ǰ'.upper() == 'J̌'
+
+
 def run(ctx):
     nrs = ctx.scale(60, 500)
     sc = common.scratch()
@@ -101,6 +104,18 @@ def run(ctx):
             k = ctx.rng.choice([7, 13, 14, 19])
             kinds = [x for x in rs["files"] if x[0] != "C"]
             rs["grammar"] = [("".join(ctx.rng.choice(kinds) for _ in range(ctx.rng.randint(1, 2))), 1.0) for _ in range(k)]
+        if r % 3 == 1:
+            # letters whose upper() is longer than one character, under masks with a U behind them
+            for k in list(rs["files"]):
+                if k[0] == "A" and int(k[1:]) in EXPANDING:
+                    n_ = int(k[1:])
+                    rs["files"][k] = [(EXPANDING[n_], rs["files"][k][0][1])] + [x for x in rs["files"][k] if x[0] != EXPANDING[n_]]
+                    ck = "C%d" % n_
+                    have = [m for m, _ in rs["files"].get(ck, [])]
+                    for m in ("L" * (n_ - 1) + "U", "U" * n_):
+                        if m not in have and rs["files"].get(ck):
+                            rs["files"][ck].append((m, rs["files"][ck][-1][1]))
+                    dist["expanding_upper"] = dist.get("expanding_upper", 0) + 1
         rs = rulesets.normalise(rs)
         try:
             g = impl_next.load_grammar(rs, sc, False, ctx.rng.random() < 0.2)
@@ -122,8 +137,9 @@ def run(ctx):
             lang = set()
             for it in items:
                 if it["pt"][0][0][0] != "M":
-                    res = collect(g, it["pt"], None)
-                    lang.update(res[0] if res else [])
+                    # the property's own definition of the language (product of the chosen groups, masks applied letter by
+                    # letter), NOT the guesser's expansion: both generators share code that the oracle must not trust
+                    lang.update(independent_product(g, it["pt"]) or [])
         for u0 in bpts:
             # base selection by the float loop, independently
             acc, bi = 0, None
@@ -175,6 +191,30 @@ def run(ctx):
                         if u > tot and ix != len(ws) - 1:
                             vio.append({"sig": "C16:group-fallthrough", "what": "%s: draw %r exceeds the float total %r of the group weights and "
                                         "group %d (not the last) is selected" % (t, u, tot, ix), "replay": replay})
+            # the word(s) this walk turns into, with scripted value / mask picks: members of the walk's own product
+            if not raised and pt and all(t[0] != "M" for t, _ in pt):
+                want = independent_product(g, pt)
+                picks = [ctx.rng.randrange(0, 6) for _ in pt]
+                got = []
+                oldp = g.print_guess
+                g.print_guess = got.append
+                try:
+                    try:
+                        nret = with_script(Script([], picks), lambda: g.create_guesses(item["pt"], is_honeyword=True, limit=1))
+                    except Exception as e:
+                        nret = None
+                        vio.append({"sig": "C16:honeyword-raised", "what": "create_guesses(is_honeyword) raised %s for %r" % (type(e).__name__, pt),
+                                    "replay": dict(replay, picks=picks)})
+                finally:
+                    g.print_guess = oldp
+                dist["scripted_words"] = dist.get("scripted_words", 0) + len(got)
+                if nret is not None and (nret != len(got) or len(got) != 1):
+                    vio.append({"sig": "C16:count", "what": "one honeyword walk of %r wrote %d words and reported %r" % (pt, len(got), nret),
+                                "replay": dict(replay, picks=picks)})
+                bad = [w for w in got if want is not None and w not in want]
+                if bad:
+                    vio.append({"sig": "C16:not-in-language", "what": "the walk %r produced %r, which is not in the product of its groups (e.g. %r)"
+                                % (pt, bad[0], (want or [None])[0]), "replay": dict(replay, picks=picks)})
             key = (r, u0)
             if key not in seen:
                 seen.add(key)
@@ -243,6 +283,25 @@ def run(ctx):
             bad = [w for w in words if w not in lang]
             if bad:
                 vio.append({"sig": "C16:not-in-language", "what": "words outside the non-Markov language: %r" % bad[:3], "replay": {"ruleset": rs, "n": n}})
+            # honeywords mode (a random seed per session): membership and count
+            hw = []
+            g.print_guess = hw.append
+            walks[0] = 0
+            g.random_walk = counted_walk
+            try:
+                try:
+                    common.quiet_call(HoneywordSession(g, "honeywords").run, limit=n)
+                except RuntimeError:
+                    pass
+            finally:
+                g.print_guess = old
+                g.random_walk = real_walk
+            dist["honeyword_mode_words"] = dist.get("honeyword_mode_words", 0) + len(hw)
+            if walks[0] <= 300 * n + 1000 and len(hw) != n:
+                vio.append({"sig": "C16:count", "what": "honeywords session with limit %d produced %d words" % (n, len(hw)), "replay": {"ruleset": rs, "n": n}})
+            bad = [w for w in hw if w not in lang]
+            if bad:
+                vio.append({"sig": "C16:not-in-language", "what": "honeywords outside the non-Markov language: %r" % bad[:3], "replay": {"ruleset": rs, "n": n}})
             words2 = []
             g.print_guess = words2.append
             walks[0] = 0
@@ -276,7 +335,8 @@ def run(ctx):
             corr.append(("walk:" + name, True, ""))
     rule = ("normalised generated rulesets; random.random()/choice() inside pcfg_grammar replaced by scripted draws: for the base structure "
             "EVERY breakpoint of the float running sum, its two neighbours (nextafter), every midpoint, 0, 5e-324 and 1-2^-53; per position a "
-            "draw from the same construction; random_walk sessions with limit N (count, membership, reproducibility); non-trivial = the draw "
+            "draw from the same construction; every walk expanded to its honeyword with scripted value/mask picks and checked against the "
+            "product of its groups computed independently (letters whose upper() expands included); random_walk and honeywords sessions with limit N (count, membership, reproducibility); non-trivial = the draw "
             "is exactly a breakpoint or above the float total; distinct by (ruleset, base draw)")
     return {"evaluations": dist["walks"], "distinct_nontrivial": nontrivial, "rule": rule, "samples": samples,
             "corr": corr, "violations": vio, "dist": dist}
